@@ -1,6 +1,6 @@
 """C10 — DogStatsD aggregation conserves counts across flushes under any interleaving."""
 from facts import Sym, path_is, strip_generics, strip_sym, sym_arg, sym_calls, sym_is_call, sym_str, sym_through, sym_walk
-from props.common import arg_syms, atomic_ops, bool_switches, callee_method_name, calls_to, crate_stats, enum_arms, gates, in_cycle, need, nonforeign_calls, one_method, orderings_in
+from props.common import is_plain_write, arg_syms, atomic_ops, bool_switches, callee_method_name, calls_to, crate_stats, enum_arms, gates, in_cycle, need, nonforeign_calls, one_method, orderings_in
 
 TITLE = "C10 DogStatsD aggregation conserves counts across flushes."
 CONFIGS = ["test-profile"]
@@ -70,12 +70,16 @@ def run(ctx):
     if ab:
         b = ab.body
         isa, last, cur, upd = ops_on(ab, "is_absolute"), ops_on(ab, "last"), ops_on(ab, "current"), ops_on(ab, "updates")
-        ok = len(isa) == 1 and isa[0][1] == "swap" and strip_sym(isa[0][3][1])[:3] == ("const", "bool", True) and len(last) == 1 and last[0][1] == "store" and is_param(last[0][3][1], 1) and len(cur) == 1 and cur[0][1] == "store" and is_param(cur[0][3][1], 1) and len(upd) == 1
+        ok = len(isa) == 1 and isa[0][1] == "swap" and strip_sym(isa[0][3][1])[:3] == ("const", "bool", True) and len(last) == 1 and is_plain_write(last[0]) and is_param(last[0][3][1], 1) and len(cur) == 1 and is_plain_write(cur[0]) and is_param(cur[0][3][1], 1) and len(upd) == 1
         if ok:
             g = gates(b, last[0][0].bb)
-            rebase_gated = any((lab is False and sym_is_call(dd, "swap")) or (lab is True and strip_sym(dd)[0] == "un" and sym_is_call(strip_sym(dd)[2], "swap")) for dd, lab in g)
+            def is_flag_swap(x):
+                x = strip_sym(x)
+                return sym_is_call(x, "swap") and self_field(x[2][0], "is_absolute")
+
+            rebase_gated = any((lab is False and is_flag_swap(dd)) or (lab is True and strip_sym(dd)[0] == "un" and is_flag_swap(strip_sym(dd)[2])) for dd, lab in g)
             always_cur = not [r for r in b.return_blocks() if r in b.reachable(0, cut={cur[0][0].bb})]
-            ok = rebase_gated and always_cur and not any(sym_is_call(dd, "swap") for dd, lab in gates(b, cur[0][0].bb))
+            ok = rebase_gated and always_cur and not any(is_flag_swap(dd) or (strip_sym(dd)[0] == "un" and is_flag_swap(strip_sym(dd)[2])) for dd, lab in gates(b, cur[0][0].bb))
         chk.ob("C10.a", ab.path, ok, "first absolute re-bases last (only when is_absolute.swap(true) was false); current.store(value) always" if ok else "absolute() does not re-base `last` exactly on the first absolute value / does not always store current", ab.loc())
     else:
         chk.unrecognised("C10.a", "<anchor> <AtomicCounter as CounterFn>::absolute", "missing")
@@ -133,14 +137,31 @@ def run(ctx):
             # loop head of the counters loop = the Iterator::next that dominates F and is reachable from W
             heads = [c for c in nonforeign_calls(sf) if c.fn is sf and c.is_("Iterator::next") and b.dominates(c.bb, F[0].bb)]
             head = max(heads, key=lambda c: len(b.dominators()[c.bb])) if heads else None
-            zero_true = set()
-            for bb, dd, t_t, f_t in bool_switches(b):
-                dd = strip_sym(dd)
-                if dd[0] == "bin" and dd[1] in ("Eq", "Ne"):
-                    l, r = strip_sym(dd[2]), strip_sym(dd[3])
+            from facts import PredFlow
+
+            def is_delta(x):
+                x = strip_sym(x)
+                return x[0] == "field" and x[2] == "0" and sym_is_call(strip_sym(x[1]), "AtomicCounter::flush")
+
+            def cbool(x):
+                x = strip_sym(x)
+                if isinstance(x, tuple) and x and x[0] == "bin" and x[1] in ("Eq", "Ne"):
+                    l, r = strip_sym(x[2]), strip_sym(x[3])
                     val = l if const_int(r) == 0 else (r if const_int(l) == 0 else None)
-                    if val is not None and val[0] == "field" and val[2] == "0" and sym_is_call(strip_sym(val[1]), "AtomicCounter::flush"):
-                        zero_true.add(t_t if dd[1] == "Eq" else f_t)
+                    if val is not None and is_delta(val):
+                        return ("P", "N") if x[1] == "Eq" else ("N", "P")
+                return None
+
+            def csw(subj, v):
+                if is_delta(subj):
+                    if v == 0:
+                        return "P"
+                    if isinstance(v, tuple) and v and v[0] == "not" and 0 in v[1]:
+                        return "N"
+                return None
+
+            pf = PredFlow(sf, csw, cbool)  # P = "the delta just taken out of the counter is 0"
+            zero_true = {x for x in range(b.n) if pf.at(x) == "P"}
             start = F[0].t.get("target")
             skip_any = head is not None and head.bb in b.reachable(start, cut={W[0].bb})
             skip_nonzero = head is not None and head.bb in b.reachable(start, cut={W[0].bb} | zero_true)
@@ -177,11 +198,27 @@ def run(ctx):
             arm = (arms or {}).get(v["name"])
             got = None
             if arm and arm["ret"] is not None:
-                r = strip_sym(arm["ret"])
-                if r[0] == "agg" and r[2] in ("None", "Some"):
-                    got = r[2]
-                elif r[0] == "call":
-                    got = "Some" if any(sym_is_call(x, "duration_since", "SystemTime::now") for x in sym_walk(r) if isinstance(x, tuple) and x and x[0] == "call") else None
+                alts = []
+
+                def flat(x):
+                    x = strip_sym(x)
+                    if x[0] == "phi":
+                        for y in x[1]:
+                            flat(y)
+                    else:
+                        alts.append(x)
+
+                flat(arm["ret"])
+
+                def is_some(x):
+                    if x[0] == "agg" and x[2] == "Some":
+                        return True
+                    return x[0] == "call" and any(sym_is_call(y, "duration_since", "SystemTime::now") for y in sym_walk(x) if isinstance(y, tuple) and y and y[0] == "call")
+
+                if alts and all(x[0] == "agg" and x[2] == "None" for x in alts):
+                    got = "None"
+                elif any(is_some(x) for x in alts):
+                    got = "Some"
             chk.ob("C10.c", f"AggregationMode::{v['name']} [timestamp]", got == want, f"documented `{want}` and implemented `{got}`" if got == want else f"documented to send {'a' if want == 'Some' else 'no'} timestamp, but get_aggregation_timestamp returns {got} for this mode", gat.loc())
     else:
         chk.unrecognised("C10.c", "<anchor> AggregationMode / get_aggregation_timestamp", "missing")
